@@ -828,7 +828,7 @@ pub fn suite_c17(ctx: &mut Ctx) {
         ("to_i32", 1, &["m", "f"]), ("to_u32", 1, &["m", "f"]), ("to_i64", 1, &["m", "f", "nt"]), ("to_u64", 1, &["m", "f", "nt"]),
         ("to_i8", 1, &["m", "f"]), ("to_i16", 1, &["m", "f"]), ("to_u8", 1, &["m", "f"]), ("to_u16", 1, &["m", "f"]),
         ("to_isize", 1, &["m", "f"]), ("to_usize", 1, &["m", "f"]),
-        ("to_p8", 1, &["f", "i"]), ("to_p16", 1, &["f", "i"]), ("to_p32", 1, &["f", "i"]),
+        ("to_p8", 1, &["f", "i", "m"]), ("to_p16", 1, &["f", "i", "m"]), ("to_p32", 1, &["f", "i", "m"]),
     ];
     const TI: &[(&str, u32, &[&str])] = &[
         ("from_i8", 8, &["m", "f", "nt"]), ("from_i16", 16, &["m", "f", "nt"]), ("from_i32", 32, &["m", "f", "nt"]), ("from_i64", 64, &["m", "f", "nt"]),
@@ -850,6 +850,51 @@ pub fn suite_c17(ctx: &mut Ctx) {
                 }
                 for sp in sps.iter() {
                     ctx.call(ty, op, sp, &x);
+                }
+            }
+        }
+        // every pair of special values through every spelling of every binary operation (NaR op NaR, 0 op NaR, ...)
+        let sp = gen::specials(ty.n);
+        for (op, ar, sps) in T {
+            if *ar == 2 {
+                for &a in sp.iter().step_by(2) {
+                    for &b in sp.iter().step_by(2) {
+                        for s in sps.iter() {
+                            ctx.call(ty, op, s, &[a, b]);
+                        }
+                    }
+                }
+                for s in sps.iter() {
+                    ctx.call(ty, op, s, &[gen::nar(ty.n), gen::nar(ty.n)]);
+                    ctx.call(ty, op, s, &[0, 0]);
+                }
+            }
+        }
+        // narrowing conversions at the target's rounding boundaries: every spelling on the source patterns nearest to
+        // each P8E0 midpoint (and a sample of the P16E1 ones), +- 1, 2, 5 source ulps
+        if ty.n > 8 {
+            let mut srcs: Vec<u64> = Vec::new();
+            for m in (1..256u64).step_by(2) {
+                srcs.push(gen::to_f64_exact(9, 0, m).to_bits());
+            }
+            if ty.n == 32 {
+                for _ in 0..ctx.q(300, 6000) {
+                    let m = (ctx.rng.gen_range(0..32768u64) << 1) | 1;
+                    srcs.push(gen::to_f64_exact(17, 1, m).to_bits());
+                }
+            }
+            for &vb in &srcs {
+                let base = match peek(ty, "from_f64", &[vb]) { Some(p) => p, None => continue };
+                for d in [-5i64, -2, -1, 0, 1, 2, 5] {
+                    let p = ((base as i64 + d) as u64) & gen::mask(ty.n);
+                    for x in [p, gen::neg(ty.n, p)] {
+                        for s in ["f", "i", "m"] {
+                            ctx.call(ty, "to_p8", s, &[x]);
+                            if ty.n == 32 {
+                                ctx.call(ty, "to_p16", s, &[x]);
+                            }
+                        }
+                    }
                 }
             }
         }
